@@ -161,9 +161,11 @@ def plan(ctx):
     for d in _e1.DRAFTS:
         sizes["ref_sibling_schemas_d%d" % d] = len(ref_schemas(d))
         units += [(d, "refs", i, 6) for i in range(6)]
+        units += [(d, "shared", kind, i, 3) for kind in ("singles", "groups") for i in range(3)]
     return {
         "units": units,
-        "rule": ("REFERENCES: every ordered pair of keyword slots (and probe-between-two-users triples) whose "
+        "rule": ("SHARED VALIDATOR: every single and sibling group x the pair universe through ONE long-lived validator "
+                 "object that gets a new copy of the schema per call, vs. a validator built for the schema.  REFERENCES: every ordered pair of keyword slots (and probe-between-two-users triples) whose "
                  "subschemas are $ref's into the same document and into a store document (same pointers, other "
                  "meaning) x 12 instances, decomposition half only.  G(draft) x U as in C01 (singles, all ordered pairs, sibling groups, nested); one "
                  "list(iter_errors) per case feeds (a) the per-keyword decomposition against the keyword alone "
@@ -248,9 +250,51 @@ def fails_like(d, S, x, kind):
     return prob is not None and prob[0] == kind
 
 
+def run_shared(unit, ctx):
+    """ONE long-lived validator object per draft is handed a NEW copy of each schema for every call
+    (iter_errors(instance, schema), the way `descend` uses a validator): the errors must be those of a
+    validator built for that schema — whatever a validator remembers about schema objects that no longer exist
+    would show."""
+    d, _, kind, shard, n = unit
+    U = list(_e1.get_universe(ctx.tier, "pairs-small"))
+    W = _e1.CLS[d]({})
+    ev = nt = nsch = 0
+    viol, outcomes = [], {}
+    lst = _e1.get_list(kind, d, ctx.tier)
+    for i in range(shard, len(lst), n):
+        S = lst[i]
+        if kind != "singles" and not _e1.accepted(d, S):
+            continue
+        nsch += 1
+        own = _e1.CLS[d](S)
+        for x in U:
+            ev += 1
+            try:
+                want = sorted((_e1.ident(e) for e in own.iter_errors(x)), key=repr)
+            except Exception:
+                continue
+            try:
+                got = sorted((_e1.ident(e) for e in W.iter_errors(x, json.loads(json.dumps(S)))), key=repr)
+            except Exception as e:
+                got = "crash " + type(e).__name__
+            if want:
+                nt += 1
+            key = "shared-agrees" if got == want else "SHARED-DISAGREES"
+            outcomes[key] = outcomes.get(key, 0) + 1
+            if got != want:
+                viol.append({"signature": "C05|shared-validator|%s|on-%s" % (_e1.kwsig(S), spec.jtype(x)),
+                             "size": len(str(S)) + len(str(x)),
+                             "case": {"draft": d, "schema": S, "instance": x, "shared": True, "kind": kind, "index": i},
+                             "detail": {"own_validator": want, "shared_validator": got}})
+    return {"evaluations": ev, "nontrivial": nt, "violations": viol, "samples": [], "outcomes": outcomes,
+            "counters": {"shared_validator_schemas": nsch}}
+
+
 def run_unit(unit, ctx):
     if unit[1] == "refs":
         return run_refs(unit, ctx)
+    if unit[1] == "shared":
+        return run_shared(unit, ctx)
     d = unit[0]
     U = list(_e1.get_universe(ctx.tier, "pairs-small" if unit[1] == "pairs" else unit[1]))
     xkeys = [json.dumps(x) for x in U]
@@ -301,6 +345,26 @@ def run_unit(unit, ctx):
 
 def replay(case, ctx):
     d, S, x = case["draft"], case["schema"], case["instance"]
+    if case.get("shared"):
+        # the failure depends on what the long-lived validator saw before: replay the unit's prefix up to the case
+        W = _e1.CLS[d]({})
+        U = list(_e1.get_universe("quick", "pairs-small"))
+        lst = _e1.get_list(case["kind"], d, "quick")
+        bad = None
+        for i in range(case["index"] % 3, case["index"] + 1, 3):
+            Si = lst[i]
+            if case["kind"] != "singles" and not _e1.accepted(d, Si):
+                continue
+            own = _e1.CLS[d](Si)
+            for xx in U:
+                try:
+                    want = sorted((_e1.ident(e) for e in own.iter_errors(xx)), key=repr)
+                    got = sorted((_e1.ident(e) for e in W.iter_errors(xx, json.loads(json.dumps(Si)))), key=repr)
+                except Exception as e:
+                    got, want = "crash " + type(e).__name__, None
+                if got != want and i == case["index"]:
+                    bad = (xx, got, want)
+        return {"reproduced": bad is not None, "first": bad}
     if case.get("refs"):
         n, prob = ref_check(d, S, x)
         return {"reproduced": prob is not None, "errors": n, "problem": prob}
